@@ -637,6 +637,7 @@ def r13g(ck, prog):
 
 def run(ck, progs):
     describe(ck)
+    ck.rule("R13h", "after a merge of input files the kind is decided again from the sum of both histograms (= R04c): merge_msa adds the new file's counts and re-runs the detection")
     ck.rule("R13g", "every increment of the histogram by an input character is executed for all 52 letters (conditions evaluated per byte) and under no budget that the counting itself uses up")
     for cfg, prog in progs.items():
         ck.attempt(r13a, ck, prog)
@@ -644,6 +645,8 @@ def run(ck, progs):
         ck.attempt(r13e, ck, prog)
         ck.attempt(r13f, ck, prog)
         ck.attempt(r13g, ck, prog)
+        from . import c04 as _c04
+        ck.borrow(_c04.r04c, prog, "R13h", ("R04c",))
         from . import c04
         b0 = len(ck.instances)
         ck.attempt(c04.r04a, ck, prog)
